@@ -4,6 +4,7 @@ import faulthandler
 import json
 import os
 import sys
+import threading
 import time
 import traceback
 
@@ -55,13 +56,37 @@ def main(argv):
             with open(out_path) as f:
                 done = sum(1 for l in f if l.strip())
     deadline = time.time() + float(os.environ.get("RTMON_SHARD_SECONDS", "1e9"))
+    case_limit = float(os.environ.get("RTMON_CASE_SECONDS", "0") or 0) or float(
+        getattr(mon, "CASE_SECONDS", 180))
+    current = {"case": None, "t0": None}
+    lock = threading.Lock()
+
     with open(out_path, "a") as out:
+        def watchdog():
+            # a generous wall-clock watchdog around every case: firing is inconclusive,
+            # never a violation; the driver restarts the shard after the culprit
+            while True:
+                time.sleep(1.0)
+                with lock:
+                    c, t0 = current["case"], current["t0"]
+                    if c is not None and time.time() - t0 > case_limit:
+                        out.write(json.dumps({"cid": c.get("cid"), "family": c.get("family"),
+                                              "verdict": "inconclusive",
+                                              "reason": f"watchdog>{case_limit:.0f}s", "stats": {}}) + "\n")
+                        out.flush()
+                        os._exit(17)
+
+        threading.Thread(target=watchdog, daemon=True).start()
         for case in cases[done:]:
             if time.time() > deadline:
                 break
+            with lock:
+                current["case"], current["t0"] = case, time.time()
             res = run_one(mon, case)
-            out.write(json.dumps(res, default=str) + "\n")
-            out.flush()
+            with lock:
+                current["case"] = None
+                out.write(json.dumps(res, default=str) + "\n")
+                out.flush()
     return 0
 
 
